@@ -502,11 +502,11 @@ func (v *vC08Net) mkLink(server, peer *mockServer, channel *lnwallet.LightningCh
 	//nolint:ll
 	link := NewChannelLink(
 		ChannelLinkConfig{
-			BestHeight:         sw.BestHeight,
-			FwrdingPolicy:      h.globalPolicy,
-			Peer:               &vC08Peer{Peer: peer, v: v, ch: ch, epoch: ep, bob: bobName != 0},
-			Circuits:           sw.CircuitModifier(),
-			ForwardPackets:     forwardPackets,
+			BestHeight:     sw.BestHeight,
+			FwrdingPolicy:  h.globalPolicy,
+			Peer:           &vC08Peer{Peer: peer, v: v, ch: ch, epoch: ep, bob: bobName != 0},
+			Circuits:       sw.CircuitModifier(),
+			ForwardPackets: forwardPackets,
 			DecodeHopIterators: func(id []byte, reqs []hop.DecodeHopIteratorRequest,
 				reforward bool) ([]hop.DecodeHopIteratorResponse, error) {
 
@@ -851,7 +851,7 @@ func vC08Launch(v *vC08Net, p *vC08Pay, rg *vrng) (func(), error) {
 	}
 	hold := p.Kind == "hold_settle" || p.Kind == "hold_cancel"
 	var prePtr *lntypes.Preimage
-	if !hold {
+	if !hold && p.Kind != "hold_manual" {
 		prePtr = &pre
 	}
 	invoice, htlc, pid, err := generatePaymentWithPreimage(
@@ -923,8 +923,8 @@ func vC08Launch(v *vC08Net, p *vC08Pay, rg *vrng) (func(), error) {
 					p.Result = "settled_wrong_preimage"
 				}
 			}
-		case <-time.After(25 * time.Second):
-			p.Result, p.Err = "timeout", "no result in 25s"
+		case <-time.After(vC08PayTimeout):
+			p.Result, p.Err = "timeout", "no result in time"
 		}
 		if p.Kind != "unknown" {
 			inv, err := receiver.registry.LookupInvoice(context.Background(), rhash)
@@ -935,8 +935,13 @@ func vC08Launch(v *vC08Net, p *vC08Pay, rg *vrng) (func(), error) {
 	}, nil
 }
 
+var (
+	vC08PayTimeout   = 25 * time.Second
+	vC08QuietTimeout = 20 * time.Second
+)
+
 func vC08Quiet(n *threeHopNetwork, r *vC08Rec) (bool, string) {
-	deadline := time.Now().Add(20 * time.Second)
+	deadline := time.Now().Add(vC08QuietTimeout)
 	last, since := -1, time.Now()
 	why := ""
 	for time.Now().Before(deadline) {
@@ -1062,10 +1067,9 @@ func (v *vC08Net) controller(plan []*vC08Fault, stop <-chan struct{}, done chan<
 	done <- nil
 }
 
-func vC08Batch(t *testing.T, rg *vrng, idx int) *vC08Case {
-	start := time.Now()
-	c := &vC08Case{Case: idx}
-
+// vC08Setup builds and starts a fresh three-hop network with the recorder
+// installed at Bob.
+func vC08Setup(t *testing.T, rg *vrng) *vC08Net {
 	// createClusterChannels, keeping the per-channel-end restore functions:
 	// only the channel being restarted may be reloaded from disk (the other
 	// one is being written to by its running links).
@@ -1123,22 +1127,189 @@ func vC08Batch(t *testing.T, rg *vrng, idx int) *vC08Case {
 	vC08Log.mu.Lock()
 	vC08Log.rec = rec
 	vC08Log.mu.Unlock()
-	var plan []*vC08Fault
-	var delays bool
-	c.Fault, delays, plan = vC08Plan(rg.fork(500), idx)
-	v := vC08NewNet(t, rec, rg.fork(501), channels, restore, circuitsOpt)
-	v.delays = delays
+	v := vC08NewNet(t, rec, rg, channels, restore, circuitsOpt)
 	n := v.n
 	if err := n.start(); err != nil {
 		t.Fatalf("start: %v", err)
 	}
-	defer func() { v.n.stop() }()
 	if rec.chans[n.aliceChannelLink.ChanID()] != 1 || rec.chans[n.carolChannelLink.ChanID()] != 2 ||
 		rec.scids[n.firstBobChannelLink.ShortChanID()] != 1 ||
 		rec.scids[n.secondBobChannelLink.ShortChanID()] != 2 {
 
 		t.Fatalf("channel id maps inconsistent")
 	}
+	return v
+}
+
+// finish fills in the end state of a case once the payments are done.
+func (v *vC08Net) finish(c *vC08Case, start time.Time) {
+	n, rec := v.n, v.rec
+	c.Quiescent, c.Why = vC08Quiet(n, rec)
+	c.End = vC08Ends(n, rec)
+	for _, s := range []*mockServer{n.aliceServer, n.bobServer, n.carolServer} {
+		c.Circuits = append(c.Circuits, []int{
+			s.htlcSwitch.circuits.NumPending(), s.htlcSwitch.circuits.NumOpen(),
+		})
+	}
+	rec.mu.Lock()
+	c.Events = append([][]any(nil), rec.ev...)
+	rec.mu.Unlock()
+	v.mu.Lock()
+	c.Dropped = v.dropped
+	v.mu.Unlock()
+	c.LinkFailures = int(atomic.LoadInt32(&v.failures))
+	c.WallMs = time.Since(start).Milliseconds()
+}
+
+// silent waits until no event has been recorded for d.
+func (v *vC08Net) silent(d time.Duration) {
+	last, since := -1, time.Now()
+	for deadline := time.Now().Add(10 * time.Second); time.Now().Before(deadline); {
+		if cnt := v.rec.count(); cnt != last {
+			last, since = cnt, time.Now()
+		}
+		if time.Since(since) > d {
+			return
+		}
+		time.Sleep(10 * time.Millisecond)
+	}
+}
+
+// TestVerifFwdPkgReplay is a DIRECTED scenario (no randomness) for the
+// restart paths: two payments Alice->Carol whose adds travel in ONE commitment
+// (one forwarding package at Bob and at Carol); the first settles at once, the
+// second is held by Carol.  Channel 2 is re-established while the second is
+// in flight (replay of a partially acked forwarding package), the hold invoice
+// is settled, a third (held) payment is started, and channel 2 is
+// re-established once more.  The third payment must still complete.  The same
+// predicate and recogniser as for the random batches are applied to the trace.
+func TestVerifFwdPkgReplay(t *testing.T) {
+	out := vOpenOut()
+	defer out.close()
+	lg := btclog.NewSLogger(btclog.NewDefaultHandler(vC08Log))
+	lg.SetLevel(btclog.LevelError)
+	UseLogger(lg)
+	vC08Probe(t, out)
+}
+
+func vC08Probe(t *testing.T, out *vWriter) {
+	pt, qt := vC08PayTimeout, vC08QuietTimeout
+	vC08PayTimeout, vC08QuietTimeout = 6*time.Second, 4*time.Second
+	defer func() { vC08PayTimeout, vC08QuietTimeout = pt, qt }()
+	for attempt := 0; attempt < 4; attempt++ {
+		var (
+			c  *vC08Case
+			ok bool
+		)
+		t.Run(fmt.Sprintf("directed%d", attempt), func(t *testing.T) {
+			c, ok = vC08Directed(t, attempt)
+		})
+		if c != nil && (ok || attempt == 3) {
+			out.emit(c)
+			return
+		}
+	}
+}
+
+// vC08Directed returns the case and whether both adds shared one forwarding
+// package with the held one LAST (otherwise the scenario is repeated).
+func vC08Directed(t *testing.T, attempt int) (*vC08Case, bool) {
+	start := time.Now()
+	rg := vNewRng(77 + uint64(attempt))
+	c := &vC08Case{Case: 1000, Fault: "probe"}
+	v := vC08Setup(t, rg.fork(501))
+	defer func() { v.n.stop() }()
+	c.Init = vC08Ends(v.n, v.rec)
+	carol := v.n.carolServer.registry
+	ctx := context.Background()
+
+	pays := []*vC08Pay{
+		{Idx: 0, Kind: "ok", Dir: "AC", InChan: 1, OutChan: 2, Amt: 1000000},
+		{Idx: 1, Kind: "hold_manual", Dir: "AC", InChan: 1, OutChan: 2, Amt: 2000000},
+		{Idx: 2, Kind: "hold_manual", Dir: "AC", InChan: 1, OutChan: 2, Amt: 3000000},
+	}
+	c.Pays = pays
+	var wg sync.WaitGroup
+	launch := func(p *vC08Pay) {
+		run, err := vC08Launch(v, p, rg.fork(uint64(1000+p.Idx)))
+		if err != nil {
+			t.Fatal(err)
+		}
+		wg.Add(1)
+		go func() { defer wg.Done(); run() }()
+	}
+	hashOf := func(p *vC08Pay) (h lntypes.Hash, pre lntypes.Preimage) {
+		hb, _ := hex.DecodeString(p.Hash)
+		copy(h[:], hb)
+		pb, _ := hex.DecodeString(p.Pre)
+		copy(pre[:], pb)
+		return
+	}
+	waitAccepted := func(p *vC08Pay) {
+		h, _ := hashOf(p)
+		for deadline := time.Now().Add(8 * time.Second); time.Now().Before(deadline); {
+			inv, err := carol.LookupInvoice(ctx, h)
+			if err == nil && inv.State == invoices.ContractAccepted {
+				return
+			}
+			time.Sleep(10 * time.Millisecond)
+		}
+	}
+	settle := func(p *vC08Pay) {
+		_, pre := hashOf(p)
+		if err := carol.SettleHodlInvoice(ctx, pre); err != nil {
+			t.Logf("settle hold invoice %d: %v", p.Idx, err)
+		}
+	}
+
+	launch(pays[0])
+	time.Sleep(4 * time.Millisecond)
+	launch(pays[1])
+	waitAccepted(pays[1])
+	v.silent(400 * time.Millisecond) // payment 0 settled and fully committed on both channels
+
+	// fault 1: channel 2 is re-established with payment 1 held by Carol
+	if err := v.flap(2); err != nil {
+		t.Fatal(err)
+	}
+	v.silent(400 * time.Millisecond)
+	settle(pays[1])
+	v.silent(400 * time.Millisecond)
+	launch(pays[2])
+	waitAccepted(pays[2])
+	v.silent(300 * time.Millisecond)
+
+	// fault 2: channel 2 is re-established again with payment 2 held by Carol
+	if err := v.flap(2); err != nil {
+		t.Fatal(err)
+	}
+	v.silent(500 * time.Millisecond)
+	settle(pays[2])
+	wg.Wait()
+	c.Faults = []*vC08Fault{{Kind: "flap", Chan: 2, Fired: "directed"},
+		{Kind: "flap", Chan: 2, Fired: "directed"}}
+	v.finish(c, start)
+	for _, e := range c.Events {
+		if e[0] == "d" && e[1] == "carol" && e[2] == 2 {
+			hs := e[4].([]string)
+			if len(hs) > 0 {
+				return c, len(hs) == 2 && hs[0] == pays[0].Hash && hs[1] == pays[1].Hash
+			}
+		}
+	}
+	return c, false
+}
+
+func vC08Batch(t *testing.T, rg *vrng, idx int) *vC08Case {
+	start := time.Now()
+	c := &vC08Case{Case: idx}
+	var plan []*vC08Fault
+	var delays bool
+	c.Fault, delays, plan = vC08Plan(rg.fork(500), idx)
+	v := vC08Setup(t, rg.fork(501))
+	v.delays = delays
+	n, rec := v.n, v.rec
+	defer func() { v.n.stop() }()
 	c.Init = vC08Ends(n, rec)
 
 	stop := make(chan struct{})
@@ -1184,21 +1355,8 @@ func vC08Batch(t *testing.T, rg *vrng, idx int) *vC08Case {
 		t.Fatalf("fault injection failed: %v", err)
 	}
 	c.Faults = plan
-	c.Quiescent, c.Why = vC08Quiet(n, rec)
-	c.End = vC08Ends(n, rec)
-	for _, s := range []*mockServer{n.aliceServer, n.bobServer, n.carolServer} {
-		c.Circuits = append(c.Circuits, []int{
-			s.htlcSwitch.circuits.NumPending(), s.htlcSwitch.circuits.NumOpen(),
-		})
-	}
-	rec.mu.Lock()
-	c.Events = append([][]any(nil), rec.ev...)
-	rec.mu.Unlock()
-	v.mu.Lock()
-	c.Dropped = v.dropped
-	v.mu.Unlock()
-	c.LinkFailures = int(atomic.LoadInt32(&v.failures))
-	c.WallMs = time.Since(start).Milliseconds()
+	_ = rec
+	v.finish(c, start)
 	return c
 }
 
@@ -1250,6 +1408,9 @@ func TestVerifThreeHop(t *testing.T) {
 	n := vCases(6, 60)
 	stuck := 0
 	only := vEnvInt("VERIF_C08_ONLY", -1)
+	if only < 0 && vEnvInt("VERIF_C08_NOPROBE", 0) == 0 {
+		vC08Probe(t, out)
+	}
 	for i := 0; i < n && stuck < 2; i++ {
 		i := i
 		if only >= 0 && int64(i) != only {
